@@ -23,9 +23,11 @@ import (
 	"math/big"
 	"math/rand"
 	"regexp"
+	"runtime/debug"
 	"sort"
 	"strconv"
 	"strings"
+	"unicode/utf8"
 
 	"github.com/mattn/anko/ast"
 	"github.com/mattn/anko/env"
@@ -195,12 +197,52 @@ func (p *c03Printer) list(ns []*c03Node) {
 	}
 }
 
+// c03PendingFix_NegNumPostfix: on the unchanged tree `-5[0]` parses to
+// (-5)[0]: the production `expr_literals: '-' NUMBER` is reduced before the
+// postfix operator is looked at, although the table puts postfix tighter than
+// unary minus (`-"abc"[0]`, `-a[0]`, `!5[0]` do parse to op(x[0])). Reported in
+// /tmp/strengthen/C03-genuine.md (item 2). While the constant is true a numeric
+// literal that is the base of a postfix form is spelled in parentheses, as it
+// always was; set it to false once /repo is repaired: `5[0]`, `-5(2)`,
+// `-0xe[1:2]` are then spelled bare and must parse to the table's tree.
+const c03PendingFix_NegNumPostfix = false
+
+// c03HasNegNumPostfix: the tree holds a unary minus applied to a postfix chain
+// (call, index, slice, member) whose innermost base is a numeric literal.
+func c03HasNegNumPostfix(n *c03Node) bool {
+	if n == nil {
+		return false
+	}
+	if n.k == c03Un && n.op == "-" && len(n.kids) == 1 {
+		b := n.kids[0]
+		depth := 0
+		for b != nil && (b.k == c03ACall || b.k == c03Idx || b.k == c03Slice || b.k == c03Mem) && len(b.kids) > 0 {
+			b = b.kids[0]
+			depth++
+		}
+		if depth > 0 && b != nil && b.isNum() {
+			return true
+		}
+	}
+	for _, k := range n.kids {
+		if c03HasNegNumPostfix(k) {
+			return true
+		}
+	}
+	return false
+}
+
 // base of a postfix form: anything looser than postfix needs parentheses; a
-// numeric literal base is always parenthesised (`5.x`, `-5[0]` are lexer
-// territory the table says nothing about); a bare name as the callee of the
-// postfix-call form must be parenthesised or it would spell the named call.
-func (p *c03Printer) base(n *c03Node, call bool) {
-	need := n.level() < 9 || n.isNum() || (call && n.k == c03Name)
+// numeric literal before `.name` is always parenthesised (`5.x` is number
+// scanning: the lexer takes `5.` as the beginning of a float, the statement
+// fixes no token boundary there; `f(1...)` likewise); a bare name as the callee
+// of the postfix-call form must be parenthesised or it would spell the named
+// call.
+func (p *c03Printer) base(n *c03Node, call, member bool) {
+	need := n.level() < 9 || (call && n.k == c03Name)
+	if n.isNum() && (member || c03PendingFix_NegNumPostfix) {
+		need = true
+	}
 	p.sub(n, need)
 }
 
@@ -240,17 +282,17 @@ func (p *c03Printer) node(n *c03Node) {
 		p.e(n.op)
 		p.sub(n.kids[0], n.kids[0].level() < 8)
 	case c03ACall:
-		p.base(n.kids[0], true)
+		p.base(n.kids[0], true, false)
 		p.e("(")
 		p.list(n.kids[1:])
 		p.e(")")
 	case c03Idx:
-		p.base(n.kids[0], false)
+		p.base(n.kids[0], false, false)
 		p.e("[")
 		p.sub(n.kids[1], false)
 		p.e("]")
 	case c03Slice:
-		p.base(n.kids[0], false)
+		p.base(n.kids[0], false, false)
 		p.e("[")
 		if n.kids[1] != nil {
 			p.sub(n.kids[1], false)
@@ -265,7 +307,7 @@ func (p *c03Printer) node(n *c03Node) {
 		}
 		p.e("]")
 	case c03Mem:
-		p.base(n.kids[0], false)
+		p.base(n.kids[0], false, true)
 		p.e(".")
 		p.e(n.op)
 	case c03Arr:
@@ -323,6 +365,13 @@ func c03Join(toks []c03Tok, tight bool) string {
 func c03Print(n *c03Node, mode int, tight, rootParen bool) string {
 	p := &c03Printer{mode: mode}
 	p.sub(n, rootParen)
+	return c03Join(p.toks, tight)
+}
+
+// c03PrintBareRoot: as c03Print, but the complete expression itself is never wrapped.
+func c03PrintBareRoot(n *c03Node, mode int, tight bool) string {
+	p := &c03Printer{mode: mode}
+	p.node(n)
 	return c03Join(p.toks, tight)
 }
 
@@ -741,9 +790,61 @@ var c03Positions = []c03Pos{
 	{"index", "mm[", "]", func(ss []ast.Stmt) ast.Expr { return ss[0].(*ast.ExprStmt).Expr.(*ast.ItemExpr).Index }},
 	{"map-value", "{\"k\": ", ", \"j\": 1}", func(ss []ast.Stmt) ast.Expr { return ss[0].(*ast.ExprStmt).Expr.(*ast.MapExpr).Values[0] }},
 	{"array-elem", "[0, ", ", 2]", func(ss []ast.Stmt) ast.Expr { return ss[0].(*ast.ExprStmt).Expr.(*ast.ArrayExpr).Exprs[1] }},
+	// two targets, one expression: the documented (value, found) form when the expression is an index
+	// expression (LetMapItemStmt), otherwise an ordinary assignment that spreads a list (LetsStmt)
+	{"two-target-rhs", "r, v = ", "\n[r, v]", func(ss []ast.Stmt) ast.Expr {
+		switch x := ss[0].(type) {
+		case *ast.LetMapItemStmt:
+			return x.RHS
+		case *ast.LetsStmt:
+			if len(x.LHSS) == 2 && len(x.RHSS) == 1 {
+				return x.RHSS[0]
+			}
+		}
+		return nil
+	}},
 }
 
 const c03ForPos = 5
+
+var c03TwoTargetPos = len(c03Positions) - 1
+
+// c03PendingFix_ParenMapItem: on the unchanged tree `r, v = (m["k"])` is an
+// ordinary two-target assignment (LetsStmt: the element is spread over r and v,
+// or `v` stays undefined) while `r, v = m["k"]` is the (value, found) form
+// (LetMapItemStmt): the grammar action tests the right-hand side for
+// *ast.ItemExpr without looking through ParenExpr, so a parenthesis around the
+// complete expression changes the statement and the run result. Reported in
+// /tmp/strengthen/C03-genuine.md (item 3). While true, exactly that input class
+// (root-parenthesised spelling of a tree whose root is an index expression, in
+// the two-target position) is left out; set to false once /repo is repaired.
+const c03PendingFix_ParenMapItem = false
+
+// c03PendingFix_ScannerReinit: on the unchanged tree parser.Scanner.Init
+// replaces the source but keeps offset/line of the previous scan, so a Scanner
+// that is re-initialised (documented: "Init resets code to scan") parses a
+// suffix of the new source (or nothing) without any error. Reported in
+// /tmp/strengthen/C03-genuine.md (item 1). While true the re-initialised-Scanner
+// observation is skipped; set to false once /repo is repaired.
+const c03PendingFix_ScannerReinit = false
+
+// c03ParseReinit parses src with a Scanner that has already scanned `first`
+// and was re-initialised with Init (public API: parser.Scanner, parser.Parse).
+func c03ParseReinit(first, src string) (stmt ast.Stmt, err error, o ank.Out) {
+	defer func() {
+		if r := recover(); r != nil {
+			o.Panicked = true
+			o.PanicVal = fmt.Sprint(r)
+			o.PanicSig = ank.PanicSig(o.PanicVal, string(debug.Stack()))
+		}
+	}()
+	sc := &parser.Scanner{}
+	sc.Init(first)
+	parser.Parse(sc) // result irrelevant; may be an error for a deliberately unfinished first source
+	sc.Init(src)
+	stmt, err = parser.Parse(sc)
+	return
+}
 
 // c03Extract applies the position's extractor; any shape surprise is reported as nil.
 func c03Extract(p *c03Pos, root ast.Stmt) (e ast.Expr) {
@@ -834,14 +935,30 @@ func c03CheckTree(c *wk.Case, t *c03Node, posIdx int, exec bool, origin string) 
 			rootParen = true
 		}
 	}
+	// pending fix: `r, v = (x[i])` is not the (value, found) form (see c03PendingFix_ParenMapItem)
+	bareRoot := c03PendingFix_ParenMapItem && posIdx == c03TwoTargetPos && t.k == c03Idx
 	mk := func(name string, mode int, tight bool) c03Spelling {
 		e := c03Print(t, mode, tight, rootParen)
+		if bareRoot {
+			e = c03PrintBareRoot(t, mode, tight)
+		}
 		return c03Spelling{name, e, pos.pre + e + pos.post}
 	}
-	// all four spellings in the bare position; minimal and full elsewhere
+	// all four spellings in the bare position; minimal and full elsewhere. The
+	// full spelling wraps the complete expression when its root is an operator
+	// or postfix form; for another root (name, call, literal, array/map/func
+	// literal) the minimal spelling with the complete expression in parentheses
+	// is added where the case is executed: a statement position that accepts an
+	// expression accepts the parenthesised expression, and the program tree
+	// (ParenExpr ignored) and the value must not change.
 	sp := []c03Spelling{mk("min", c03Min, false), mk("full", c03Full, false)}
+	rootParenIdx := -1
 	if posIdx == 0 {
 		sp = append(sp, mk("tight", c03Min, true), mk("fullall", c03FullAll, false))
+	} else if !rootParen && exec && !t.isOp() {
+		e := c03Print(t, c03Min, false, true)
+		sp = append(sp, c03Spelling{"rootparen", e, pos.pre + e + pos.post})
+		rootParenIdx = len(sp) - 1
 	}
 	want := c03Norm(t)
 	nops := t.countOps()
@@ -881,6 +998,11 @@ func c03CheckTree(c *wk.Case, t *c03Node, posIdx int, exec bool, origin string) 
 		if ok, where := c03DiffSig(want, got); !ok {
 			in := map[string]interface{}{"origin": origin, "position": pos.name, "spelling": s.name, "src": c03Clip(s.prog),
 				"want": c03Clip(want.canon()), "got": c03Clip(got.canon())}
+			if strings.HasPrefix(where, "shape:want[unary-]") && c03HasNegNumPostfix(want) {
+				// the listed finding: `-5[0]` is built as (-5)[0]. Its own signature, so that a
+				// unary minus that binds too tightly on any OTHER operand is still reported.
+				where = "neg-number-literal-binds-tighter-than-postfix"
+			}
 			c.Violation("tree:"+where, "parsed tree of the "+s.name+" spelling differs from the tree the operator table dictates ("+where+")", in)
 			allParsed = false
 			continue
@@ -897,12 +1019,38 @@ func c03CheckTree(c *wk.Case, t *c03Node, posIdx int, exec bool, origin string) 
 			return
 		}
 	}
+	// the same source through a re-initialised Scanner: the tree is dictated by the source alone
+	if posIdx == 0 && !c03PendingFix_ScannerReinit {
+		for _, first := range []string{sp[1].prog + " + 1", "a", "x = [1,\n2]\n"} {
+			root, err, o := c03ParseReinit(first, sp[0].prog)
+			c.Events(1)
+			in := map[string]interface{}{"origin": origin, "first-source": c03Clip(first), "src": c03Clip(sp[0].prog)}
+			switch {
+			case o.Panicked:
+				c.Violation("scanner-reinit:panic:"+o.PanicSig, "parser.Parse panicked on a re-initialised Scanner: "+o.PanicVal, in)
+				return
+			case err != nil:
+				c.Violation("scanner-reinit:parse-error", "parser.Parse on a Scanner re-initialised with Init rejects a source that ParseSrc accepts: "+err.Error(), in)
+				return
+			}
+			if d := astx.Dump(root, astx.Opts{SkipParen: true}); d != dumps[0] {
+				in["got"] = c03Clip(d)
+				in["want"] = c03Clip(dumps[0])
+				c.Violation("scanner-reinit:tree-differs", "parser.Parse on a Scanner re-initialised with Init builds another tree than ParseSrc for the same source", in)
+				return
+			}
+		}
+		c.Tag("scanner-reinit")
+	}
 	t.walk(func(n *c03Node) {
 		if n.isOp() {
 			c.Tag("op:" + n.label())
 		}
 	})
 	c.Tag("pos:" + pos.name)
+	if rootParenIdx >= 0 {
+		c.Tag("rootparen:" + pos.name)
+	}
 	if !exec {
 		return
 	}
@@ -929,6 +1077,16 @@ func c03CheckTree(c *wk.Case, t *c03Node, posIdx int, exec bool, origin string) 
 			"min-result": c03Clip(r1 + " " + ank.ErrText(o1.Err)), "full-result": c03Clip(r2 + " " + ank.ErrText(o2.Err))}
 		c.Violation("value:"+pos.name+":"+t.label(), "minimal and fully parenthesised spelling evaluate differently", in)
 		return
+	}
+	if rootParenIdx >= 0 {
+		o3 := ank.Exec(c03Env(), sp[rootParenIdx].prog)
+		c.Events(1)
+		if r3 := cls(o3); r3 != r1 {
+			in := map[string]interface{}{"origin": origin, "position": pos.name, "min": c03Clip(sp[0].prog), "rootparen": c03Clip(sp[rootParenIdx].prog),
+				"min-result": c03Clip(r1 + " " + ank.ErrText(o1.Err)), "rootparen-result": c03Clip(r3 + " " + ank.ErrText(o3.Err))}
+			c.Violation("value:rootparen:"+pos.name+":"+t.label(), "the expression and the same expression in parentheses evaluate differently in this statement position", in)
+			return
+		}
 	}
 	if strings.HasPrefix(r1, "value") {
 		c.Tag("exec:both-value")
@@ -1124,6 +1282,11 @@ func c03Neighbourhoods() []*c03Node {
 			out = append(out, c03U(u, c03Post(i, pbase(i))), c03Post(i, c03U(u, pbase(i))))
 		}
 		out = append(out, c03U(u, &c03Node{k: c03Call, op: "id", kids: []*c03Node{c03N("a")}}))
+		// postfix form of a numeric literal under a unary operator (`-5[1]` is -(5[1]) by the table; a run error either way)
+		for i := range c03PostNames {
+			out = append(out, c03U(u, c03Post(i, c03IntLit(5))), c03U(u, c03Post(i, &c03Node{k: c03Lit, lk: 'f', lf: 2.5, src: "2.5"})),
+				c03U(u, c03Post(i, &c03Node{k: c03Lit, lk: 'i', li: 14, src: "0xe"})))
+		}
 		for _, u2 := range c03UnOps {
 			out = append(out, c03U(u, c03U(u2, leafFor(u2))), c03U(u, c03U(u2, c03IntLit(5))))
 		}
@@ -1704,8 +1867,40 @@ func c03DrawString(r *rand.Rand) string {
 	rs := make([]rune, n)
 	for i := range rs {
 		rs[i] = c03StrPool[r.Intn(len(c03StrPool))]
+		if r.Intn(8) == 0 {
+			rs[i] = c03RandRune(r) // any non-ASCII character: written as itself (also directly after `\\`)
+		}
 	}
 	return string(rs)
+}
+
+// c03RandRune draws a valid non-ASCII code point from the whole range; half of
+// the draws get the low byte of an ASCII character that means something to the
+// lexer (escape letters, quotes, backslash, newline), the classic victim of a
+// rune-to-byte truncation.
+func c03RandRune(r *rand.Rand) rune {
+	var x rune
+	switch r.Intn(4) {
+	case 0:
+		x = 0x80 + rune(r.Intn(0x3000-0x80))
+	case 1:
+		x = 0x3000 + rune(r.Intn(0xD800-0x3000))
+	case 2:
+		x = 0xE000 + rune(r.Intn(0x2000))
+	default:
+		x = 0x10000 + rune(r.Intn(0x100000))
+	}
+	if r.Intn(2) == 0 {
+		const low = "bfnrt\\\"'`\n\r0xuae#/ "
+		x = x&^0xFF | rune(low[r.Intn(len(low))])
+		if x < 0x100 {
+			x += 0x100
+		}
+	}
+	if !utf8.ValidRune(x) { // surrogates
+		x = 0x162
+	}
+	return x
 }
 
 // quoted spelling with the escapes the lexer documents: \\ \" \' \n \t \r \b \f,
@@ -1816,11 +2011,13 @@ func c03LiteralCase(c *wk.Case, per int) {
 			c03LitReject(c, "out-of-range-negative", s, 0)
 			c03LitReject(c, "out-of-range-negative", s, i+1)
 		}
-		for _, s := range []string{"", "a", "\\", "\"", "'", "`", "\n", "a\nb", "\t\r\b\f", "\\n", "é日😀", "//x", "/*x*/", "#x", "a\\\"b", "''", "\"\""} {
+		for _, s := range []string{"", "a", "\\", "\"", "'", "`", "\n", "a\nb", "\t\r\b\f", "\\n", "é日😀", "//x", "/*x*/", "#x", "a\\\"b", "''", "\"\"",
+			"\\é", "é\\", "\\\u0162\\\U0001F46E", "\u0122\u0127\u0160\u2028\u0085\u00a0", "\\\\\u016e"} {
 			c03Strings(c, r, s)
 		}
 		return
 	}
+	c03EscSweep(c, c.Index-1, 32)
 	for k := 0; k < per; k++ {
 		ctx := r.Intn(len(c03LitCtx))
 		switch x := r.Intn(20); {
@@ -1915,6 +2112,158 @@ func c03Strings(c *wk.Case, r *rand.Rand, s string) {
 	}
 }
 
+// ---- backslash before a character that has no defined escape ----
+//
+// The statement gives the escapes \\ \" \' \n \t \r \b \f their Go value and
+// says nothing about a backslash before another character (Go itself rejects
+// `"\é"`), so the value of `"\X"` for a non-ASCII X is not judged against one
+// expected string. Two things are fixed all the same:
+//   - "literals denote exactly what is written": whatever the rule for an
+//     undefined escape is, the denoted string is made of what was written: X
+//     kept, backslash and X both kept, both dropped, or the literal rejected with
+//     a parse error. A string holding a character that occurs nowhere in the
+//     spelling (a control character, another letter) is not what was written.
+//   - no X outside ASCII has a defined escape, so the rule cannot depend on
+//     which X it is: all X of a sweep must be treated alike. They are compared
+//     with each other and with three fixed anchors (U+00E9, U+65E5, U+1F600).
+// The parts of the literal around `\X` are defined and must come out exactly.
+
+// c03EscBlocks: first code points of the 256-code-point blocks swept completely
+// in every run: all of U+0080..U+307F, and samples of the rest of the BMP and
+// of the astral planes (one block per literals case, case 1 onwards).
+var c03EscBlocks = func() []rune {
+	var out []rune
+	for lo := rune(0x80); lo < 0x3000; lo += 0x100 {
+		out = append(out, lo)
+	}
+	out = append(out, 0x4E00, 0xAC00, 0xD700, 0xE000, 0xF900, 0xFE00, 0xFF00, 0x10000, 0x1D400,
+		0x1F300, 0x1F400, 0x1F500, 0x1F600, 0x1F900, 0x20000, 0x2FF00, 0xE0000, 0xF0000, 0x10FF00)
+	return out
+}()
+
+type c03EscCtx struct{ pre, preVal, post, postVal string }
+
+// defined text around the undefined escape (no quote characters: valid in both quote styles)
+var c03EscCtxs = []c03EscCtx{
+	{"", "", "", ""},
+	{"a", "a", "b", "b"},
+	{`\n`, "\n", `\t`, "\t"},
+	{`x\\`, `x\`, `\\y`, `\y`},
+	{"é", "é", "日", "日"},
+	{`\r\f\b `, "\r\f\b ", ` n`, " n"},
+}
+
+var c03EscQuotes = []struct {
+	q     string
+	class string
+}{{`"`, "string-dq"}, {"'", "string-sq"}}
+
+// c03EscOne parses one literal with `\X` in it and classifies the treatment of X.
+// ok=false: a violation was already reported (or the parse panicked).
+func c03EscOne(c *wk.Case, x rune, qi, ci int, doExec bool) (cls string, ok bool) {
+	q, ctx := c03EscQuotes[qi], c03EscCtxs[ci%len(c03EscCtxs)]
+	spelling := q.q + ctx.pre + `\` + string(x) + ctx.post + q.q
+	input := map[string]interface{}{"class": q.class, "escaped": fmt.Sprintf("U+%04X", x), "src": spelling,
+		"want": "the written characters only: " + strconv.Quote(ctx.preVal) + " + [X | \\X | nothing] + " + strconv.Quote(ctx.postVal) + ", or a parse error; the same choice for every non-ASCII X"}
+	c.Begin(input)
+	c.Eval("esc\x00"+spelling, true)
+	root, err, o := ank.Parse(spelling)
+	c.Events(1)
+	if o.Panicked {
+		c.Violation("literal:panic:undef-escape:"+o.PanicSig, "parser panicked: "+o.PanicVal, input)
+		return "", false
+	}
+	if err != nil {
+		var pe *parser.Error
+		if !errors.As(err, &pe) {
+			c.Violation("literal:errtype:undef-escape", fmt.Sprintf("rejected with %T, not *parser.Error", err), input)
+			return "", false
+		}
+		return "rejected", true
+	}
+	lits := c03LitNodes(root)
+	if len(lits) != 1 || !lits[0].Literal.IsValid() {
+		c.Violation("literal:node:undef-escape:"+q.class, "one quoted string did not parse to one LiteralExpr: "+c03Clip(astx.Dump(root, astx.Opts{SkipParen: true})), input)
+		return "", false
+	}
+	got, isStr := lits[0].Literal.Interface().(string)
+	switch {
+	case !isStr:
+		cls = "other"
+	case got == ctx.preVal+string(x)+ctx.postVal:
+		cls = "kept"
+	case got == ctx.preVal+`\`+string(x)+ctx.postVal:
+		cls = "kept-with-backslash"
+	case got == ctx.preVal+ctx.postVal:
+		cls = "dropped"
+	default:
+		cls = "other"
+	}
+	if cls == "other" {
+		c.Violation("literal:undef-escape:not-what-is-written:"+q.class,
+			"backslash before a character without a defined escape: the literal denotes "+ank.Render(lits[0].Literal.Interface())+
+				", which is not made of the characters written", input)
+		return "", false
+	}
+	if doExec {
+		ex := ank.Exec(ank.NewCoreEnv(), spelling)
+		c.Events(1)
+		if v, isS := ex.Val.(string); ex.Panicked || ex.Err != nil || !isS || v != got {
+			c.Violation("literal:exec:undef-escape:"+q.class, "literal parses to "+strconv.Quote(got)+" but evaluates to "+ank.Render(ex.Val)+" err="+ank.ErrText(ex.Err), input)
+			return "", false
+		}
+	}
+	return cls, true
+}
+
+// c03EscSweep: block b of c03EscBlocks (every code point, both quote styles,
+// rotating surroundings) plus `extra` code points drawn from the whole range.
+func c03EscSweep(c *wk.Case, b, extra int) {
+	// reference treatment: the anchors, which must agree among themselves
+	var ref [2]string
+	for qi := range c03EscQuotes {
+		for ai, a := range []rune{0xE9, 0x65E5, 0x1F600} {
+			cls, ok := c03EscOne(c, a, qi, ai, false)
+			if !ok {
+				return
+			}
+			if ref[qi] == "" {
+				ref[qi] = cls
+			} else if cls != ref[qi] {
+				c.Violation("literal:undef-escape:not-uniform:"+c03EscQuotes[qi].class, fmt.Sprintf("`\\X` is treated as %q for U+00E9 but as %q for U+%04X", ref[qi], cls, a),
+					map[string]interface{}{"class": c03EscQuotes[qi].class, "escaped": fmt.Sprintf("U+%04X", a)})
+				return
+			}
+		}
+	}
+	one := func(x rune, k int) {
+		if !utf8.ValidRune(x) || x < 0x80 {
+			return
+		}
+		for qi := range c03EscQuotes {
+			cls, ok := c03EscOne(c, x, qi, k+qi, k%16 == 0)
+			if !ok {
+				continue
+			}
+			c.Tag("lit:undef-escape:" + c03EscQuotes[qi].class + ":" + cls)
+			if cls != ref[qi] {
+				c.Violation("literal:undef-escape:not-uniform:"+c03EscQuotes[qi].class,
+					fmt.Sprintf("`\\X` is treated as %q for U+00E9, U+65E5, U+1F600 but as %q for U+%04X", ref[qi], cls, x),
+					map[string]interface{}{"class": c03EscQuotes[qi].class, "escaped": fmt.Sprintf("U+%04X", x), "reference": ref[qi], "got": cls})
+			}
+		}
+	}
+	if b >= 0 && b < len(c03EscBlocks) {
+		for k := 0; k < 256; k++ {
+			one(c03EscBlocks[b]+rune(k), k)
+		}
+		c.Tag("lit:undef-escape:block-swept")
+	}
+	for k := 0; k < extra; k++ {
+		one(c03RandRune(c.Rng), c.Rng.Intn(64))
+	}
+}
+
 // ======================================================================
 // C03: plan and case dispatch.
 
@@ -1945,12 +2294,17 @@ func init() {
 					strconv.Itoa(k2) + "+" + strconv.Itoa(k3) + " trees = all ordered pairs and triples in every shape), plus all unary x binary/?:/postfix/unary, binary x postfix, postfix x postfix " +
 					"neighbourhoods and operators inside delimited slots (" + strconv.Itoa(len(c03Nbr)) + " trees); each spelled minimal, minimal without optional blanks, fully parenthesised (operators) and fully parenthesised (leaves too), " +
 					"bare and embedded in a rotating statement position; each spelling must parse to the tree itself (AST converted back, ParenExpr/positions ignored, -5 ~ literal -5), dump identically, and minimal/full must evaluate alike. " +
-					"phase trees: PRNG-drawn typed trees (depth<=6 quick, <=8 thorough) over all operators, postfix forms, literals, names, calls, array/map/func literals, embedded in all 14 statement positions. " +
-					"phase literals: Go values spelled as decimal/0x/0X/0b/0B integers, floats (., e, E, signed exponents), \"..\"/'..' strings with escapes, raw strings; negative forms; out-of-range and malformed spellings must give *parser.Error. " +
+					"phase trees: PRNG-drawn typed trees (depth<=6 quick, <=8 thorough) over all operators, postfix forms, literals, names, calls, array/map/func literals, embedded in all " + strconv.Itoa(len(c03Positions)) + " statement positions (incl. the right-hand side of a two-target assignment `r, v = e`; the fully parenthesised spelling wraps the complete expression, a root that is no operator is wrapped in an extra spelling where the case is executed): same program tree and value. " +
+					"phase literals: Go values spelled as decimal/0x/0X/0b/0B integers, floats (., e, E, signed exponents), \"..\"/'..' strings with escapes, raw strings; negative forms; out-of-range and malformed spellings must give *parser.Error; " +
+					"string values also draw non-ASCII code points from the whole range (half of them with the low byte of a lexically meaningful ASCII character), written as themselves and after an escaped backslash; " +
+					"undefined escapes (complete every run, one 256-code-point block per case from case 1): a backslash before every code point of U+0080..U+307F and of " + strconv.Itoa(len(c03EscBlocks)-0x30) + " further BMP/astral blocks, plus 32 drawn code points per case, in both quote styles with rotating defined surroundings: the literal must denote only characters that were written (X kept, backslash and X kept, both dropped, or *parser.Error) and the choice must be the same for every X (compared with U+00E9, U+65E5, U+1F600). " +
+					"bare position also: the same source through a parser.Scanner re-initialised with Init must give ParseSrc's tree (pending fix, see c03PendingFix_ScannerReinit). " +
 					"non-trivial = tree with >=2 operators, or any literal check; distinct = distinct (position, minimal source) / (literal source).",
 				Assumptions: []string{
 					"strconv.FormatFloat(-1) emits digits that denote the float exactly; Go constant arithmetic is the reference for fixed float spellings",
-					"unspecified, kept out or accepted both ways: `<-`, chained `in` without parentheses, ++/--/op=, escapes before letters/digits (\\x41), leading-zero decimals, `1.`, `.5`, float underflow (1e-400), CR in raw strings, numeric literal as postfix base, top-level `in`/map literal directly after `for`, -2^63 spelled with a minus sign (MinInt64 or rejection)",
+					"unspecified, kept out or accepted both ways: `<-`, chained `in` without parentheses, ++/--/op=, escapes before letters/digits (\\x41), leading-zero decimals, `1.`, `.5`, float underflow (1e-400), CR in raw strings, numeric literal directly before `.name` or `...` (`5.x`, `f(1...)`: where the number token ends is not fixed by the statement), top-level `in`/map literal directly after `for`, -2^63 spelled with a minus sign (MinInt64 or rejection)",
+					"a backslash before a non-ASCII character has no defined value (Go rejects it): only 'made of the written characters' and 'the same rule for every such character' are judged",
+					"pending repairs of /repo (constants c03PendingFix_*, reported in /tmp/strengthen/C03-genuine.md): numeric literal as the base of call/index/slice is spelled in parentheses (`-5[0]` parses to (-5)[0]); an index expression as the complete right-hand side of the two-target position is never root-parenthesised (`r, v = (m[k])` is not the (value, found) form); the re-initialised-Scanner observation is off (Init keeps the old offset)",
 					"run-time errors of type-wild trees are not judged, only that both spellings agree",
 				},
 				Phases: []fw.Phase{
@@ -1983,6 +2337,9 @@ func c03EnumCase(c *wk.Case) {
 			origin := "enum/neighbourhood#" + strconv.Itoa(i)
 			c03CheckTree(c, t, 0, true, origin)
 			c03CheckTree(c, t, 1+i%(npos-1), true, origin)
+			if t.k == c03Idx && 1+i%(npos-1) != c03TwoTargetPos {
+				c03CheckTree(c, t, c03TwoTargetPos, true, origin) // every index-rooted neighbourhood also as `r, v = x[i]`
+			}
 		}
 		return
 	}
